@@ -21,6 +21,7 @@ func (p *StreamPool) VerifConnCount() int {
 type VerifConnState struct {
 	Pages    int       // conn.pages as accounted by the assembler
 	Queued   int       // pages actually linked in the out-of-order list
+	HeadSeen time.Time // timestamp of the first (lowest sequence) queued page, i.e. the data waited on next (zero if none)
 	Oldest   time.Time // oldest Seen of a queued page (zero if none)
 	Closed   bool
 	LastSeen time.Time
@@ -32,6 +33,9 @@ func (p *StreamPool) VerifConns() []VerifConnState {
 	for _, c := range p.connections() {
 		c.mu.Lock()
 		st := VerifConnState{Pages: c.pages, Closed: c.closed, LastSeen: c.lastSeen}
+		if c.first != nil {
+			st.HeadSeen = c.first.Seen
+		}
 		for pg := c.first; pg != nil; pg = pg.next {
 			st.Queued++
 			if st.Oldest.IsZero() || pg.Seen.Before(st.Oldest) {
